@@ -3,12 +3,20 @@ From Coq Require Import List Bool.
 From DV Require Import Engine.Lifecycle.
 Import ListNotations.
 
-Theorem C12_single_module : forall l body, no_import body = true ->
-  notes (run_process l body) = NBegin 0 :: repeat (NEv 0) (fst (prefix body)) ++ tail_of (snd (prefix body)).
-Proof. exact single_module_grammar. Qed.
+(* one instrumented module; every launch mode; normal end, exception or exit at any index; coverage on or off *)
+Theorem C12_single_module : forall cov l body, no_import body = true ->
+  notes (snd (run_process_cov cov l body)) = NBegin 0 :: repeat (NEv 0) (fst (prefix body)) ++ tail_of (snd (prefix body)).
+Proof. exact single_module_grammar_cov. Qed.
 Print Assumptions C12_single_module.
 
-Theorem C12_multi_module_partial : forall l body, no_raise body = true ->
-  notes (run_process l body) = NBegin 0 :: repeat (NEv 0) (fst (evs body)) ++ [NEnd 0; NDump 0].
+(* what leaves the process is the program's own outcome (its own exception re-raised), coverage on or off *)
+Theorem C12_single_module_outcome : forall cov l body, no_import body = true ->
+  fst (run_process_cov cov l body) = snd (prefix body).
+Proof. exact single_module_outcome. Qed.
+Print Assumptions C12_single_module_outcome.
+
+(* several instrumented modules, any import structure, as long as no exception crosses a module boundary *)
+Theorem C12_multi_module_partial : forall cov l body, no_raise body = true ->
+  notes (snd (run_process_cov cov l body)) = NBegin 0 :: repeat (NEv 0) (fst (evs body)) ++ [NEnd 0; NDump 0].
 Proof. exact multi_module_grammar_partial. Qed.
 Print Assumptions C12_multi_module_partial.
